@@ -57,10 +57,10 @@ def scenarios(tier):
         n = len(CR.walk(o, CR.split_frame(o)[1]).children)
         out.append(Scenario(f"aidon {label}: all registers, scalers and texts free", path_for(label, o),
                             bounds={"layout": label, "elements": n, "free": "every octet of every register at once (u32, i16, u16: full range incl. sign), every text character (printable ASCII); the scaler octet of ONE element at a time free in -3..3 (each element in turn), the others as captured",
-                                    "forms": "frame and bare body"}, domains=("decoders",), frontier=4, assumptions=A, replay_cap=60))
+                                    "forms": "frame and bare body"}, domains=("decoders",), engine_opts={"slicing": True}, frontier=4, assumptions=A, replay_cap=60))
     base = D.fixture("aidon", "no_list_3" if not q else "no_list_2")
     out.append(Scenario(f"aidon sub-lists: every ordered selection of <= {2 if q else 3} elements of {'list 3' if not q else 'list 2'}", sublist_path(base, 2 if q else 3),
-                        bounds={"selection": f"ordered, distinct, <= {2 if q else 3} elements", "free": "all holes"}, domains=("decoders",), frontier=3, assumptions=A, replay_cap=60))
+                        bounds={"selection": f"ordered, distinct, <= {2 if q else 3} elements", "free": "all holes"}, domains=("decoders",), engine_opts={"slicing": True}, frontier=3, assumptions=A, replay_cap=60))
     return out
 
 
